@@ -33,6 +33,8 @@ func init() {
 			return markerCase(c, i, cs)
 		case "raw":
 			return rawCase(c, i, cs)
+		case "live":
+			return liveCase(c, i, cs)
 		}
 		amf0x.Broken("unknown case kind %q", cs.Kind)
 		return rp.Result{}
@@ -141,6 +143,51 @@ func tree(c *rp.Ctx, i int, cs *amf0x.Case) rp.Result {
 		what = encDev
 	}
 	return rp.Result{OK: false, Deviation: keyedDeviation, What: what, Nontriv: true}
+}
+
+// liveCase: a history of calls on live objects (spec/amf0/Amf0Live.tla). Whatever was marshalled, changed below,
+// decoded or moved before: the bytes the library writes for the node the behaviour observes are the AMF0
+// specification's encoding of the value that node has NOW (the independent decoder maps exactly those bytes to
+// that value: MC invariant LiveDecodes). A value that holds a strict array with elements may be written in the
+// layout StrictKeyed instead - exactly that layout - which is the known finding; the history goes on.
+func liveCase(c *rp.Ctx, i int, cs *amf0x.Case) rp.Result {
+	dev := ""
+	k, what := amf0x.RunLive(cs.Steps, c.Seed, func(k int, st *amf0x.Step, a amf0.Amf0) string {
+		want, free := amf0x.MustLDFree(st.Enc, c.Seed)
+		if len(want) != st.Size {
+			amf0x.Broken("case %d step %d: encoding has %d bytes, size says %d", i, k, len(want), st.Size)
+		}
+		got, err := a.MarshalBinary()
+		if err != nil {
+			return fmt.Sprintf("MarshalBinary of node #%d failed: %v", st.N, err)
+		}
+		df := ld.DiffFree(got, want, free)
+		if df == "" {
+			return ""
+		}
+		what := fmt.Sprintf("node #%d: library bytes differ from the AMF0 specification's encoding of its current value: %s", st.N, df)
+		if !st.HasStrict {
+			return what
+		}
+		if len(st.EncKeyed) == 0 {
+			amf0x.Broken("case %d step %d: strict array without the deviation's expectation", i, k)
+		}
+		keyed, kfree := amf0x.MustLDFree(st.EncKeyed, c.Seed)
+		if df := ld.DiffFree(got, keyed, kfree); df != "" {
+			return what + "; and from the StrictKeyed layout of its current value as well: " + df
+		}
+		if dev == "" {
+			dev = fmt.Sprintf("history [%s]: %s (they are exactly the StrictKeyed layout: count, then (name, value) pairs)", amf0x.History(cs.Steps, k), what)
+		}
+		return ""
+	})
+	if k >= 0 {
+		return rp.Fail(i, "history [%s]: step %d: %s", amf0x.History(cs.Steps, k), k, what)
+	}
+	if dev != "" {
+		return rp.Result{OK: false, Deviation: keyedDeviation, What: dev, Nontriv: true}
+	}
+	return rp.Result{OK: true, Nontriv: true}
 }
 
 func freeHead(free []bool, n int) []bool {
